@@ -2,8 +2,8 @@
 import re
 from props.common_prog import judge_prog
 
-THEOREM_MODULES = ["Hcl.Theorems.C05", "Hcl.Tie.Memory", "Hcl.Tie.Fixed"]
-THEOREMS = {"Hcl.Tie.Memory": ["Tie.Memory.memoryReadText", "Tie.Memory.memoryWriteText"], "Hcl.Tie.Fixed": ["Tie.Fixed.fixedFunctions"], "Hcl.Theorems.C05": ["C05_read_spec", "C05_write_spec", "wrLE_hit", "wrLE_other", "C05_read_after_write",
+THEOREM_MODULES = ["Hcl.Theorems.C05", "Hcl.Theorems.Effects", "Hcl.Tie.Memory", "Hcl.Tie.Fixed"]
+THEOREMS = {"Hcl.Theorems.Effects": ["C04_C05_accepted_effect", "portWrite_spec", "writeMem_effect", "writeReg_effect"], "Hcl.Tie.Memory": ["Tie.Memory.memoryReadText", "Tie.Memory.memoryWriteText"], "Hcl.Tie.Fixed": ["Tie.Fixed.fixedFunctions"], "Hcl.Theorems.C05": ["C05_read_spec", "C05_write_spec", "wrLE_hit", "wrLE_other", "C05_read_after_write",
                                  "C05_last_write_wins", "C05_untouched", "C05_read_port", "C05_instruction_port",
                                  "C05_write_port"]}
 
